@@ -21,8 +21,8 @@ def sortStr (xs : List String) : List String := xs.mergeSort (fun a b => decide 
 
 /-- `prepare_string_for_hashing` applied to a `str` -/
 def cleanStr (cfg : HCfg) (typeTag : String) (s : String) : String :=
-  let s := if cfg.ignoreStringType then s else typeTag ++ ":" ++ s
-  if cfg.ignoreStringCase then s.toLower else s
+  let s := if cfg.ignoreStringCase then s.toLower else s          -- the text is folded before the type prefix is added
+  if cfg.ignoreStringType then s else typeTag ++ ":" ++ s
 
 /-- the distinct strings in first-occurrence order (the key order of the `defaultdict(int)` that
 `_prep_iterable` fills) -/
